@@ -5,7 +5,7 @@
    [reachable s] quantifies over EVERY finite action list from the empty ledger: any number of requests of any kind
    with any keys, any interleaving of their steps (key reservation, store lookup, execution, append, wait), any batch
    composition, crashes and store failures at every point, and requests started after a restart. *)
-From FL Require Import Engine.Model Engine.Spec Engine.E2Base Engine.E2Main Engine.E2Variants.
+From FL Require Import Engine.Model Engine.Spec Engine.E2Base Engine.E2Step Engine.E2Main Engine.E2Variants Engine.E2ReadFail.
 
 (* at most one log entry on disk carries a given non-empty key *)
 Theorem C07_once : forall s, reachable s -> ik_once (persisted s).
@@ -194,3 +194,123 @@ Example C07_cancel_example_granted :
     get_thread (threads s) 2 = Some th2 /\ t_resp th2 = Some (RErr ELockCancelled) /\
     v_locks s = [] /\ v_queue s = [] /\ v_iks s = [] /\ v_refs s = [] /\ map e_owner (persisted s) = [0; 1].
 Proof. exact e2_cancel_granted. Qed.
+
+(* ---- transient store read failures (AResumeReadFail) ----------------------------------------------------------------- *)
+(* [AResumeReadFail t]: the store read of the region request t runs next fails with a transient error.  [ik_hold] /
+   [ref_hold] / [rev_hold] (Engine/E2Step.v) are the pcs at which a request HOLDS its key / reference / revert
+   reservation: the hold tables of the reservation invariant.  The enabled pcs are [PRevTaken] (holds the revert
+   reservation only), [PIkTaken] and [PIkLookup None] (key, revert reservation; NOT the reference), [PRefTaken],
+   [PRefLookup false], [PLocked] (key, reference, revert reservation). *)
+
+(* the request answers an error and its key leaves the table exactly when it holds it at that pc; nothing is written.
+   (The one case without an error: SaveMeta ignores the failure of its GetTransaction and goes on: tables unchanged.) *)
+Theorem C07_read_failed_releases_key : forall s t s', reachable s -> step s (AResumeReadFail t) = Some s' ->
+  exists th th', get_thread (threads s) t = Some th /\ get_thread (threads s') t = Some th' /\
+    persisted s' = persisted s /\ inflight s' = inflight s /\
+    ((exists err, t_resp th' = Some (RErr err)) ->
+       v_iks s' = (if ik_hold (t_pc th) && negb (N.eqb (rq_ik (t_req th)) 0)
+                   then remove_N (rq_ik (t_req th)) (v_iks s) else v_iks s)) /\
+    (t_resp th' = None -> v_iks s' = v_iks s).
+Proof. exact e2_read_failed_releases_key. Qed.
+Print Assumptions C07_read_failed_releases_key.
+
+(* the whole step, field by field: which error, the three tables, disk and in-flight lists, the thread *)
+Theorem C07_read_failed_step : forall s t s', reachable s -> step s (AResumeReadFail t) = Some s' ->
+  exists th th', get_thread (threads s) t = Some th /\ get_thread (threads s') t = Some th' /\
+    t_gen th = gen s /\ t_req th' = t_req th /\ t_resp th = None /\ t_entry th = None /\ t_entry th' = None /\
+    persisted s' = persisted s /\ inflight s' = inflight s /\ v_uid s' = v_uid s /\
+    (((exists err, rf_error th = Some err /\ t_resp th' = Some (RErr err)) /\ t_pc th' = PFinished /\
+      v_iks s' = (if ik_hold (t_pc th) && negb (N.eqb (rq_ik (t_req th)) 0)
+                  then remove_N (rq_ik (t_req th)) (v_iks s) else v_iks s) /\
+      v_refs s' = (if ref_hold (t_pc th) && negb (N.eqb (rq_ref (t_req th)) 0)
+                   then remove_N (rq_ref (t_req th)) (v_refs s) else v_refs s) /\
+      v_revs s' = (if rev_hold (t_pc th)
+                   then match rq_kind (t_req th) with KRevert => remove_nat (rq_revert (t_req th)) (v_revs s) | _ => v_revs s end
+                   else v_revs s))
+     \/
+     (rq_kind (t_req th) = KSaveMeta /\ t_pc th = PIkLookup None /\ t_resp th' = None /\
+      t_pc th' = (if rq_dry (t_req th) then PWait else PAppendEnter) /\
+      v_iks s' = v_iks s /\ v_refs s' = v_refs s /\ v_revs s' = v_revs s)).
+Proof. exact e2_read_failed_step. Qed.
+Print Assumptions C07_read_failed_step.
+
+(* ... and in a reachable state this is sound.  The step adds no entry (so the set of entries carrying the key is what it
+   was).  When it answers an error and the request holds its key: it held it ITSELF, afterwards the key is free and no
+   request holds it; and when the key lookup had been made and had MISSED ([ik_miss]: [PIkLookup None], [PRefTaken],
+   [PRefLookup false], [PLocked]) no entry on disk or in flight carries the key -- a retry is a fresh request.  At
+   [PIkTaken] the lookup has NOT been made: an entry with the key MAY be on disk (a replay whose lookup failed, see
+   [C07_read_failure_retry]); the request writes nothing.  At [PRevTaken] the key is not held and the table is untouched. *)
+Theorem C07_read_failed_fresh : forall s t s', reachable s -> step s (AResumeReadFail t) = Some s' ->
+  exists th th', get_thread (threads s) t = Some th /\ get_thread (threads s') t = Some th' /\
+    persisted s' ++ inflight s' = persisted s ++ inflight s /\
+    ((exists err, t_resp th' = Some (RErr err)) ->
+      (rq_ik (t_req th) <> 0%N -> ik_hold (t_pc th) = true ->
+        In (rq_ik (t_req th)) (v_iks s) /\ ~ In (rq_ik (t_req th)) (v_iks s') /\
+        (forall t2 th2, get_thread (threads s') t2 = Some th2 -> rq_ik (t_req th2) = rq_ik (t_req th) ->
+                        ik_hold (t_pc th2) = false) /\
+        (ik_miss (t_pc th) = true -> forall x, In x (persisted s' ++ inflight s') -> e_ik x <> rq_ik (t_req th))) /\
+      (ik_hold (t_pc th) = false -> v_iks s' = v_iks s)).
+Proof. exact e2_read_failed_key_fresh. Qed.
+Print Assumptions C07_read_failed_fresh.
+
+(* nobody else's reservation is touched: each table only shrinks, by at most the acting request's own key / reference /
+   revert target; and every reservation HELD by another request is still in its table *)
+Theorem C07_read_fail_other_reservations_untouched : forall s t s', reachable s -> step s (AResumeReadFail t) = Some s' ->
+  exists th, get_thread (threads s) t = Some th /\
+    (forall k, (In k (v_iks s') -> In k (v_iks s)) /\ (In k (v_iks s) -> k <> rq_ik (t_req th) -> In k (v_iks s'))) /\
+    (forall k, (In k (v_refs s') -> In k (v_refs s)) /\ (In k (v_refs s) -> k <> rq_ref (t_req th) -> In k (v_refs s'))) /\
+    (forall id, (In id (v_revs s') -> In id (v_revs s)) /\
+                (In id (v_revs s) -> ~ (rq_kind (t_req th) = KRevert /\ id = rq_revert (t_req th)) -> In id (v_revs s'))) /\
+    (forall t2 th2, t2 <> t -> get_thread (threads s) t2 = Some th2 ->
+       (rq_ik (t_req th2) <> 0%N -> ik_hold (t_pc th2) = true -> In (rq_ik (t_req th2)) (v_iks s')) /\
+       (is_tx_kind (rq_kind (t_req th2)) = true -> rq_ref (t_req th2) <> 0%N -> ref_hold (t_pc th2) = true ->
+          In (rq_ref (t_req th2)) (v_refs s')) /\
+       (rq_kind (t_req th2) = KRevert -> rev_hold (t_pc th2) = true -> In (rq_revert (t_req th2)) (v_revs s'))).
+Proof. exact e2_read_fail_others_untouched. Qed.
+Print Assumptions C07_read_fail_other_reservations_untouched.
+
+(* non-vacuity, from the empty ledger.  (1) the key lookup of request 2 (key 7) fails: [RErr EStoreRead], key table empty,
+   nothing written; (2) a NEW request 3 with the same key then commits: exactly one entry carries key 7; (3) the replay
+   situation: request 1 (key 7) is committed first, the key lookup of request 2 (key 7) FAILS: it answers
+   [RErr EStoreRead] and writes nothing -- still exactly one entry with key 7 (with a successful lookup it replays
+   [ROk (Some 1)]).  This is what seeded change C07-3 broke in the real code: it went on and wrote a second entry. *)
+Example C07_read_failure_retry :
+  (exists s th2, run init (e2_rf_fund ++ [AStart 2 e2_pay79; AResumeReadFail 2]) = Some s /\
+     get_thread (threads s) 2 = Some th2 /\ t_pc th2 = PFinished /\ t_resp th2 = Some (RErr EStoreRead) /\
+     t_entry th2 = None /\ v_iks s = [] /\ v_refs s = [] /\ map e_owner (persisted s) = [0] /\
+     v_pending s = [] /\ v_batch s = None) /\
+  (exists s th2 th3, run init (e2_rf_fund ++ [AStart 2 e2_pay79; AResumeReadFail 2] ++ e2_full79 3) = Some s /\
+     get_thread (threads s) 2 = Some th2 /\ get_thread (threads s) 3 = Some th3 /\ t_req th3 = t_req th2 /\
+     rq_ik (t_req th2) = 7%N /\ t_resp th2 = Some (RErr EStoreRead) /\ t_resp th3 = Some (ROk (Some 1)) /\
+     map (fun e => (e_owner e, e_ik e, e_ref e)) (persisted s) = [(0, 0%N, 0%N); (3, 7%N, 9%N)] /\
+     count_where (fun e => N.eqb (e_ik e) 7) (persisted s) = 1 /\ v_iks s = [] /\ v_refs s = []) /\
+  (exists s0 th0 s th2 s2 th2',
+     run init (e2_rf_fund ++ e2_full79 1 ++ [AStart 2 e2_pay79]) = Some s0 /\
+     get_thread (threads s0) 2 = Some th0 /\ t_pc th0 = PIkTaken /\
+     count_where (fun e => N.eqb (e_ik e) 7) (persisted s0) = 1 /\
+     run init (e2_rf_fund ++ e2_full79 1 ++ [AStart 2 e2_pay79; AResumeReadFail 2]) = Some s /\
+     get_thread (threads s) 2 = Some th2 /\ t_resp th2 = Some (RErr EStoreRead) /\ t_entry th2 = None /\
+     persisted s = persisted s0 /\ v_pending s = [] /\ v_batch s = None /\ v_iks s = [] /\
+     map (fun e => (e_owner e, e_ik e)) (persisted s) = [(0, 0%N); (1, 7%N)] /\
+     count_where (fun e => N.eqb (e_ik e) 7) (persisted s) = 1 /\
+     run init (e2_rf_fund ++ e2_full79 1 ++ [AStart 2 e2_pay79; AResume 2; AResume 2]) = Some s2 /\
+     get_thread (threads s2) 2 = Some th2' /\ t_resp th2' = Some (ROk (Some 1)) /\ persisted s2 = persisted s0).
+Proof. exact e2_read_failure_retry. Qed.
+
+(* the read under the account locks fails ([PLocked], ResolveBalances): request 1 (key 5, reference 6) gives back its
+   key, its reference and its locks -- and nothing of request 2 (key 7, reference 9) queued behind it, which is granted
+   the locks by the re-check and commits *)
+Example C07_read_failure_locked :
+  exists s0 th1 s1 th1' th2' s th2,
+    run init e2_rf_locked_prefix = Some s0 /\ get_thread (threads s0) 1 = Some th1 /\ t_pc th1 = PLocked /\
+    v_iks s0 = [7%N; 5%N] /\ v_refs s0 = [9%N; 6%N] /\ v_queue s0 = [2] /\
+    run init (e2_rf_locked_prefix ++ [AResumeReadFail 1]) = Some s1 /\
+    get_thread (threads s1) 1 = Some th1' /\ t_resp th1' = Some (RErr EStoreRead) /\ t_entry th1' = None /\
+    v_iks s1 = [7%N] /\ v_refs s1 = [9%N] /\ v_queue s1 = [] /\ map (fun h => fst (fst h)) (v_locks s1) = [2] /\
+    get_thread (threads s1) 2 = Some th2' /\ t_pc th2' = PEnqueued /\ t_granted th2' = true /\
+    persisted s1 = persisted s0 /\
+    run init (e2_rf_locked_prefix ++ [AResumeReadFail 1] ++ e2_rs 2 8 ++ [APersistOk] ++ e2_rs 2 3) = Some s /\
+    get_thread (threads s) 2 = Some th2 /\ t_resp th2 = Some (ROk (Some 1)) /\
+    map (fun e => (e_owner e, e_ik e, e_ref e)) (persisted s) = [(0, 0%N, 0%N); (2, 7%N, 9%N)] /\
+    v_iks s = [] /\ v_refs s = [] /\ v_locks s = [] /\ v_queue s = [].
+Proof. exact e2_read_failure_locked. Qed.
